@@ -43,8 +43,18 @@ impl Csr {
 		builder.set_pubkey(&key_pair.inner_key)?;
 		if !subject_attributes.is_empty() {
 			let mut snb = X509NameBuilder::new()?;
+			#[cfg(not(feature = "breard_r_acmed_verif"))]
 			for (sattr, val) in subject_attributes.iter() {
 				snb.append_entry_by_nid(sattr.get_nid(), val)?;
+			}
+			#[cfg(feature = "breard_r_acmed_verif")]
+			{
+				// std's HashMap order is random per process: fix it so that CSR bytes replay
+				let mut attrs: Vec<_> = subject_attributes.iter().collect();
+				attrs.sort_by_key(|(a, _)| a.get_nid().as_raw());
+				for (sattr, val) in attrs {
+					snb.append_entry_by_nid(sattr.get_nid(), val)?;
+				}
 			}
 			let name = snb.build();
 			builder.set_subject_name(&name)?;
